@@ -4,12 +4,12 @@
 #  2. without the change: the demo passes
 set -u
 WT="$1"; cd "$WT" || exit 2
-git diff -- src > /tmp/confirm.patch
+git diff -- src > /tmp/confirm.patch   # (git stash is shared between worktrees: not used)
 [ -s /tmp/confirm.patch ] || { echo "no source change in $WT"; exit 2; }
 echo "--- with change: full suite"
 cargo test --workspace --offline --no-fail-fast 2>&1 | grep -E "^test result|Running|FAILED|failed|error(\[|:)" | grep -vE "^\s+Running unittests" | head -40
 echo "--- without change: demo only"
-git stash push -q -- src
+git apply -R /tmp/confirm.patch
 cargo test --offline --test seeded_demo 2>&1 | grep -E "^test result|FAILED|failed|error(\[|:)" | head
-git stash pop -q
+git apply /tmp/confirm.patch
 git diff --stat -- src | tail -1
